@@ -6,9 +6,11 @@ from harness import core, gen, common
 
 ID = 'C16'
 LEAN_TARGETS = ['Props.C16']
+TIE_A = ['series_sin_eq', 'series_sinh_eq', 'series_cos_eq', 'series_cosh_eq']
 OBLIGATIONS = [
     'C16.blade_even_powers', 'C16.blade_odd_powers', 'C16.exp_on_blade', 'C16.exp_on_null_blade', 'C16.exp_on_scalar',
-    'C16.squaring_undoes_scaling', 'C16.exp_commute',
+    'C16.squaring_undoes_scaling', 'C16.exp_commute', 'C16.cosh_plus_sinh_is_exp', 'C16.series_loop_invariant',
+    'C16.even_series_parity', 'C16.odd_series_parity', 'C16.cos_cosh_on_blade', 'C16.sin_sinh_on_blade',
 ]
 PARTIAL = ['closeness of the truncated polynomials to the real functions (and exp(A+B)=exp(A)exp(B), cos^2+sin^2=1 for the truncations) is analytic: compared with libm '
            'within the stated relative tolerance 1e-6, and with the exact-rational evaluation of the coded series within rounding, not proved']
